@@ -122,6 +122,7 @@ namespace gtry::hlim {
 					stack.push_back({
 						.signal = top.signal.node->getDriver(0),
 						.negated = top.negated,
+						.canDescendIntoAnd = top.canDescendIntoAnd, // a signal node is transparent: after a negation we still can't descend into ANDs
 						.lastLogicDriver = top.lastLogicDriver,
 					});
 					doAddAsTerm = false;
